@@ -363,12 +363,11 @@ func alterEvery(k int, rtpOnly bool) func([]byte) [][]byte {
 		} else if erng.Intn(3) == 0 {
 			pos = erng.Intn(12) // clear header
 		}
-		// The receiver latches the remote SSRC from the first packet of a format before
-		// authenticating it (finding ssrc-latch-unauthenticated, reproduced deterministically by
-		// stageLatch). Random alterations therefore leave the SSRC field of the first packet of a
-		// payload type alone, so that these runs measure everything else.
-		if first && pos >= 8 && pos < 12 {
-			pos = 12 + erng.Intn(len(mut)-12)
+		// Regression for the fixed finding ssrc-latch-before-auth (/repo e33be43): until a genuine
+		// packet of this payload type has gone out, prefer the SSRC field -- an altered copy that
+		// arrives first must not make the receiver refuse the genuine packets that follow.
+		if first && erng.Intn(2) == 0 {
+			pos = 8 + erng.Intn(4)
 		}
 		if erng.Bool() {
 			mut[pos] ^= 1 << erng.Intn(8)
